@@ -23,7 +23,7 @@ def weird_entry(ex, st, good_block, good_len):
     mtime = ex.fresh_int('wmtime', -(1 << 63), (1 << 63) - 1)
     nanos = ex.fresh_int('wnanos', 0, (1 << 32) - 1)
     has_target = ex.branch(ex.fresh_bool('whas_target'), 'target present?')
-    naddr = ex.concretize(ex.fresh_int('wnaddr', 0, 1), 0, 1, 'addresses')
+    naddr = ex.concretize(ex.fresh_int('wnaddr', 0, 2), 0, 2, 'addresses')
     addrs = []
     if naddr:
         start = ex.fresh_int('wstart', 0, U64)
@@ -33,6 +33,9 @@ def weird_entry(ex, st, good_block, good_len):
         else:
             h = env.HashV(777, 'f' * 128)
         addrs.append(A.mk_addr(ex, h, start, ln))
+    if naddr == 2:
+        # a second address: the lengths of several addresses are summed up by size()
+        addrs.append(A.mk_addr(ex, good_block, ex.fresh_int('wstart2', 0, U64), ex.fresh_int('wlen2', 0, U64)))
     e = A.mk_entry(ex, '/m', kind, mtime, addrs=addrs, target='t' if has_target else None, nanos=nanos,
                    mode=ex.fresh_int('wmode', 0, (1 << 32) - 1))
     return e, dict(kind=kind, mtime=mtime, nanos=nanos, has_target=has_target, naddr=naddr)
@@ -106,7 +109,14 @@ def make_decoded(prog, op, apath_variant='valid', version='0.6.3'):
                 res['bad'].append({'kind': 'not-contained', 'op': op, 'msg': out['lost'], 'model': B.model_values(m), 'apath': apath_variant,
                                    'version': version, 'entry': {}})
             if out.get('overflowed'):
+                # arithmetic on decoded values overflowed: a panic in builds with overflow checks, a silently wrong number otherwise
                 res['notes'].append(out['overflowed'][0])
+                r0, m = ex.E.check()
+                d = ex.env.get('desc', {})
+                ev = lambda v: (m.eval(zint(v), model_completion=True).as_long() if m is not None and is_sym(v) else v)
+                res['bad'].append({'kind': 'panic', 'op': op, 'msg': 'arithmetic overflow on decoded values at %s (panics where overflow checks are on, wraps silently otherwise)' % out['overflowed'][0],
+                                   'where': out['overflowed'][0], 'entry': {k: ev(v) for k, v in d.items()}, 'model': B.model_values(m),
+                                   'apath': apath_variant, 'version': version})
             if len(res['samples']) < 1:
                 res['samples'].append({'op': op, 'outcome': out})
         return h, on_path, res
